@@ -645,20 +645,32 @@ def _has_escape(v):
     return False
 
 
+def js_int_str(n):
+    """String(n) in JavaScript for an integer literal n (a double)."""
+    r = repr(float(n))
+    neg = r.startswith("-")
+    r = r.lstrip("-")
+    if "e" in r:
+        mant, exp = r.split("e")
+        digits = mant.replace(".", "")
+        r = digits + "0" * (int(exp) - (len(mant.split(".")[0]) - 1) - (len(digits) - len(mant.split(".")[0])))
+    elif r.endswith(".0"):
+        r = r[:-2]
+    return ("-" if neg else "") + r
+
+
 def key_cause(canon, want, got, escapes=None):
-    """Cause of a key disagreement: the argument whose chunk differs (keys are name____arg___chunk____arg___chunk...)."""
-    a = str(want).split("____")[1:]
-    b = (got[0] if isinstance(got, list) and len(got) == 1 and isinstance(got[0], str) else "").split("____")[1:]
-    sub = canon
-    if len(a) == len(b) == len(canon):
-        diff = [i for i in range(len(a)) if a[i] != b[i]]
-        if diff:
-            sub = [canon[i] for i in diff]
-            if escapes is not None:
-                escapes = [escapes[i] for i in diff]
+    """Cause of a key disagreement, confirmed against the two keys (not merely present in the argument list)."""
+    got1 = got[0] if isinstance(got, list) and len(got) == 1 and isinstance(got[0], str) else None
+    if got1 is not None:
+        def js(m):
+            n = int(m.group(1).replace("n", "-"))
+            return "l_" + js_int_str(n).replace("-", "n") if abs(n) > 2 ** 53 - 1 else m.group(0)
+        if re.sub(r"l_(n?\d+)", js, str(want)) == got1 and str(want) != got1:
+            return "literal:int-outside-js-safe-range"
     if escapes is not None and any(escapes):
         return "string-escape-sequence"
-    return _str_detail(sub)
+    return _str_detail(canon)
 
 
 def compare_keys(c, where, op_sels, ast_nodes, out, stats, text):
